@@ -144,8 +144,14 @@ func runC05(c *mon.Ctx) {
 			sc[focusIdx] = c05Bound(r, now, fdelta, badKind)
 		case "nb":
 			nb = c05Bound(r, now, fdelta, badKind)
+			if badKind != "ok" && r.IntN(3) == 0 {
+				nooa = c05Bound(r, now, pick(r, []time.Duration{-time.Nanosecond, 0, -time.Hour}), "ok") // a bad lower bound AND already expired
+			}
 		case "nooa":
 			nooa = c05Bound(r, now, fdelta, badKind)
+			if badKind != "ok" && r.IntN(3) == 0 {
+				nb = c05Bound(r, now, pick(r, []time.Duration{time.Nanosecond, time.Second, time.Hour}), "ok") // not yet valid AND a bad upper bound
+			}
 		}
 		if r.IntN(10) == 0 { // equalities among bounds
 			nooa = c05bound{kind: "ok", t: sc[0].t, text: sc[0].text}
